@@ -64,16 +64,16 @@ func emitSites(fn *ssa.Function) []*emitSite {
 		a := ci.Common().Args
 		var s *emitSite
 		switch n {
-		case "midix.(*MIDIWriter).addMeta":
+		case "midix.MIDIWriter.addMeta":
 			s = &emitSite{call: ci, via: "addMeta", delta: a[1]}
 			s.opType, s.fields = opLiteral(a[2])
-		case "midix.(*MIDIWriter).addAll":
+		case "midix.MIDIWriter.addAll":
 			s = &emitSite{call: ci, via: "addAll", delta: a[1]}
 			s.opType, s.fields = opLiteral(a[2])
-		case "midix.(*MIDIWriter).addFixed":
+		case "midix.MIDIWriter.addFixed":
 			s = &emitSite{call: ci, via: "addFixed", delta: a[1], track: a[2]}
 			s.opType, s.fields = opLiteral(a[3])
-		case "midix.(*MIDIWriter).add", "midix.(*TrackSetController).Add", "midix.(*TrackSetController).Distribute", "midix.(*TrackSet).Add":
+		case "midix.MIDIWriter.add", "midix.TrackSetController.Add", "midix.TrackSetController.Distribute", "midix.TrackSet.Add":
 			s = &emitSite{call: ci, via: strings.TrimPrefix(n, "midix.")}
 		}
 		if s != nil {
@@ -116,7 +116,7 @@ func rulePending(c *Ctx) {
 		if fn.Name() == "Rest" || len(sites) == 0 {
 			// must only accumulate: addTickDelta(newTicks(param))
 			c.site(1)
-			adds := callsTo(fn, "midix.(*MIDIWriter).addTickDelta")
+			adds := callsTo(fn, "midix.MIDIWriter.addTickDelta")
 			good := len(sites) == 0 && len(adds) == 1
 			if good {
 				nt, ok := isCallTo(adds[0].Common().Args[1], "midix.MIDIWriter.newTicks")
@@ -124,13 +124,13 @@ func rulePending(c *Ctx) {
 			}
 			if fn.Name() == "Rest" {
 				c.check(good, name, c.pos(fn.Pos()), name, "emits nothing, adds newTicks(value) to the pending delta", "Rest must emit no event and add exactly newTicks(value) to the pending delta; it no longer does (rest time is lost, doubled or turned into events)")
-			} else if len(callsTo(fn, "midix.(*MIDIWriter).getTickDeltaAndClear")) > 0 {
+			} else if len(callsTo(fn, "midix.MIDIWriter.getTickDeltaAndClear")) > 0 {
 				c.bad(name, c.pos(fn.Pos()), name, "consumes the pending delta without emitting an event: the elapsed rest time is lost")
 			}
 			continue
 		}
 		c.site(1)
-		gets := callsTo(fn, "midix.(*MIDIWriter).getTickDeltaAndClear")
+		gets := callsTo(fn, "midix.MIDIWriter.getTickDeltaAndClear")
 		if len(gets) != 1 {
 			c.bad(name, c.pos(fn.Pos()), name, fmt.Sprintf("emits events but calls getTickDeltaAndClear %d times (want exactly once): the time elapsed since the previous event (pending rests) is not attached to this event, so it and everything after it on the track lands early", len(gets)))
 			continue
@@ -172,9 +172,9 @@ func rulePending(c *Ctx) {
 		typeArg                  int // parameter index passed to the type constructor, -1 none
 	}
 	for _, w := range []wiring{
-		{"(*MIDIWriter).addMeta", "midix.NewTrackOp", "midix.NewMetaTrack", "midix.(*MIDIWriter).add", -1},
-		{"(*MIDIWriter).addFixed", "midix.NewTrackOp", "midix.NewFixedTrack", "midix.(*MIDIWriter).add", 2},
-		{"(*MIDIWriter).addAll", "midix.NewTrackOp", "midix.NewMetaTrack", "midix.(*TrackSetController).Distribute", -1},
+		{"MIDIWriter.addMeta", "midix.NewTrackOp", "midix.NewMetaTrack", "midix.MIDIWriter.add", -1},
+		{"MIDIWriter.addFixed", "midix.NewTrackOp", "midix.NewFixedTrack", "midix.MIDIWriter.add", 2},
+		{"MIDIWriter.addAll", "midix.NewTrackOp", "midix.NewMetaTrack", "midix.TrackSetController.Distribute", -1},
 	} {
 		fn := c.fn("midix", w.fn)
 		if fn == nil {
@@ -211,13 +211,13 @@ func rulePending(c *Ctx) {
 		}
 		c.check(good, name, c.pos(fn.Pos()), name, "passes delta, track and op through unchanged", name+": "+why)
 	}
-	if fn := c.fn("midix", "(*MIDIWriter).add"); fn != nil {
+	if fn := c.fn("midix", "MIDIWriter.add"); fn != nil {
 		c.site(1)
-		calls := callsTo(fn, "midix.(*TrackSetController).Add")
+		calls := callsTo(fn, "midix.TrackSetController.Add")
 		c.check(len(calls) == 1 && calls[0].Common().Args[1] == ssa.Value(fn.Params[1]), fname(fn), c.pos(fn.Pos()), fname(fn), "hands the op to the track set", "add no longer hands its op to TrackSetController.Add")
 	}
 	// getTickDeltaAndClear: returns the field and stores 0; addTickDelta: field += t
-	if fn := c.fn("midix", "(*MIDIWriter).getTickDeltaAndClear"); fn != nil {
+	if fn := c.fn("midix", "MIDIWriter.getTickDeltaAndClear"); fn != nil {
 		c.site(1)
 		rets := returnsOf(fn)
 		good := len(rets) == 1
@@ -237,7 +237,7 @@ func rulePending(c *Ctx) {
 		})
 		c.check(good && zero, fname(fn), c.pos(fn.Pos()), fname(fn), "returns the pending delta and clears it", "getTickDeltaAndClear no longer returns the pending delta and resets it to 0")
 	}
-	if fn := c.fn("midix", "(*MIDIWriter).addTickDelta"); fn != nil {
+	if fn := c.fn("midix", "MIDIWriter.addTickDelta"); fn != nil {
 		c.site(1)
 		good := false
 		allInstrs(fn, func(in ssa.Instruction) {
@@ -256,7 +256,7 @@ func rulePending(c *Ctx) {
 // OWN
 
 func ruleOwn(c *Ctx) {
-	adders := map[string]int{"midix.(*Track).Add": 1, "midix.(*TrackSet).Add": 2, "midix.(*TrackSetController).Add": 1, "midix.(*TrackSetController).Distribute": 1}
+	adders := map[string]int{"midix.Track.Add": 1, "midix.TrackSet.Add": 2, "midix.TrackSetController.Add": 1, "midix.TrackSetController.Distribute": 1}
 	for _, fn := range c.srcFuncs() {
 		for _, ci := range callsIn(fn) {
 			idx, ok := adders[calleeName(ci.Common())]
@@ -284,7 +284,7 @@ func ruleOwn(c *Ctx) {
 			// pushing its delta onto the other tracks (Track.Add, not TrackSet.Add / controller.Add)
 			if l := enclosingRangeLoop(b); l != nil {
 				if call, ok := l.bound.(*ssa.Call); ok && strings.HasSuffix(calleeName(&call.Call), "TrackSet.Len") {
-					c.check(calleeName(ci.Common()) == "midix.(*Track).Add", key+"|no-propagation", c.pos(ci.Pos()), fname(fn), "an event for every track is added to each track directly", "inside a loop over all tracks the op is added with "+strings.TrimPrefix(calleeName(ci.Common()), "midix.")+", which also pushes the op's delta onto every other track: the delay is counted once per remaining track and the end-of-track markers drift apart after a trailing rest")
+					c.check(calleeName(ci.Common()) == "midix.Track.Add", key+"|no-propagation", c.pos(ci.Pos()), fname(fn), "an event for every track is added to each track directly", "inside a loop over all tracks the op is added with "+strings.TrimPrefix(calleeName(ci.Common()), "midix.")+", which also pushes the op's delta onto every other track: the delay is counted once per remaining track and the end-of-track markers drift apart after a trailing rest")
 				}
 			}
 		}
@@ -295,14 +295,14 @@ func ruleOwn(c *Ctx) {
 // TRACKADD
 
 func ruleTrackAdd(c *Ctx) {
-	fn := c.fn("midix", "(*TrackSet).Add")
+	fn := c.fn("midix", "TrackSet.Add")
 	if fn == nil {
-		c.missing("midix.(*TrackSet).Add")
+		c.missing("midix.TrackSet.Add")
 	} else {
 		c.site(1)
 		name := fname(fn)
-		adds := callsTo(fn, "midix.(*Track).Add")
-		prop := callsTo(fn, "midix.(*Track).AddTickDelta")
+		adds := callsTo(fn, "midix.Track.Add")
+		prop := callsTo(fn, "midix.Track.AddTickDelta")
 		problem := ""
 		switch {
 		case len(adds) != 1:
@@ -364,9 +364,9 @@ func ruleTrackAdd(c *Ctx) {
 		c.check(problem == "", name, c.pos(fn.Pos()), name, "delta read before delivery; every other track receives it", name+": "+problem)
 	}
 	// Track.Add
-	ta := c.fn("midix", "(*Track).Add")
+	ta := c.fn("midix", "Track.Add")
 	if ta == nil {
-		c.missing("midix.(*Track).Add")
+		c.missing("midix.Track.Add")
 		return
 	}
 	c.site(1)
@@ -397,7 +397,7 @@ func ruleTrackAdd(c *Ctx) {
 	straight := len(ta.Blocks) == 1
 	c.check(folded && appended && cleared && straight, name, c.pos(ta.Pos()), name, "op.TickDelta += pending; append; pending = 0", fmt.Sprintf("%s: folded=%v appended=%v cleared=%v single-path=%v — the track's pending delay is no longer moved into the op exactly once", name, folded, appended, cleared, straight))
 	// AddTickDelta accumulates
-	if fn := c.fn("midix", "(*Track).AddTickDelta"); fn != nil {
+	if fn := c.fn("midix", "Track.AddTickDelta"); fn != nil {
 		good := false
 		allInstrs(fn, func(in ssa.Instruction) {
 			if st, ok := in.(*ssa.Store); ok {
@@ -549,9 +549,9 @@ func pathsSiteCount(l *loopInfo, siteBlocks map[*ssa.BasicBlock]int) (int, int) 
 }
 
 func ruleNote(c *Ctx) {
-	fn := c.fn("midix", "(*MIDIWriter).Note")
+	fn := c.fn("midix", "MIDIWriter.Note")
 	if fn == nil {
-		c.missing("midix.(*MIDIWriter).Note")
+		c.missing("midix.MIDIWriter.Note")
 		return
 	}
 	c.site(1)
@@ -574,7 +574,7 @@ func ruleNote(c *Ctx) {
 		c.bad(name+"|pairing", c.pos(fn.Pos()), name, fmt.Sprintf("Note emits %d NoteOn and %d NoteOff sites: notes are not struck or never released", len(ons), len(offs)))
 		return
 	}
-	var firstValue = map[string]string{"midix.NoteOn": "midix.(*MIDIWriter).getTickDeltaAndClear", "midix.NoteOff": "midix.MIDIWriter.newTicks"}
+	var firstValue = map[string]string{"midix.NoteOn": "midix.MIDIWriter.getTickDeltaAndClear", "midix.NoteOff": "midix.MIDIWriter.newTicks"}
 	checkPhase := func(label string, ss []*emitSite) *loopInfo {
 		var loop *loopInfo
 		siteBlocks := map[*ssa.BasicBlock]int{}
@@ -1125,9 +1125,9 @@ func ruleOpMap(c *Ctx) {
 		{"Marker", "midix.MetaMarker", map[string]string{"Text": "text"}, "addMeta"},
 		{"Close", "midix.Close", map[string]string{}, "addAll"},
 	} {
-		fn := c.fn("midix", "(*MIDIWriter)."+m.method)
+		fn := c.fn("midix", "MIDIWriter."+m.method)
 		if fn == nil {
-			c.missing("midix.(*MIDIWriter)." + m.method)
+			c.missing("midix.MIDIWriter." + m.method)
 			continue
 		}
 		c.site(1)
@@ -1171,7 +1171,7 @@ func ruleOpMap(c *Ctx) {
 		{"ProgramChange", "midi/v2.ProgramChange", []string{"Channel", "Program"}},
 		{"NoteOn", "midi/v2.NoteOn", []string{"Channel", "Key", "Velocity"}},
 		{"NoteOff", "midi/v2.NoteOff", []string{"Channel", "Key"}},
-		{"Close", "smf.(*Track).Close", nil},
+		{"Close", "smf.Track.Close", nil},
 	} {
 		fn := c.fn("midix", o.typ+".Call")
 		if fn == nil {
@@ -1201,7 +1201,7 @@ func ruleOpMap(c *Ctx) {
 				if strings.HasSuffix(n, o.ctor) {
 					ctorCall, _ = ci.(*ssa.Call)
 				}
-				if strings.HasSuffix(n, "smf.(*Track).Add") {
+				if strings.HasSuffix(n, "smf.Track.Add") {
 					addCall = ci
 				}
 			}
@@ -1288,7 +1288,7 @@ func ruleTrackCount(c *Ctx) {
 		good := false
 		if len(calls) == 1 {
 			if ex, ok := calls[0].Common().Args[0].(*ssa.Extract); ok && ex.Index == 0 {
-				if call, ok := ex.Tuple.(*ssa.Call); ok && strings.HasSuffix(calleeName(&call.Call), "pflag.(*FlagSet).GetInt") {
+				if call, ok := ex.Tuple.(*ssa.Call); ok && strings.HasSuffix(calleeName(&call.Call), "pflag.FlagSet.GetInt") {
 					s, _ := constString(call.Call.Args[1])
 					good = s == "track"
 				}
@@ -1311,7 +1311,7 @@ func ruleTrackCount(c *Ctx) {
 	for _, ci := range callsIn(fn) {
 		n := calleeName(ci.Common())
 		switch {
-		case strings.HasSuffix(n, "smf.(*SMF).Add"):
+		case strings.HasSuffix(n, "smf.SMF.Add"):
 			addCall, _ = ci.(*ssa.Call)
 		case n == "midix.Track.Apply":
 			applyCall = ci
@@ -1319,7 +1319,7 @@ func ruleTrackCount(c *Ctx) {
 			getCall = ci
 		case n == "midix.TrackSet.Len":
 			lenCall = ci
-		case strings.HasSuffix(n, "smf.(*SMF).WriteTo"):
+		case strings.HasSuffix(n, "smf.SMF.WriteTo"):
 			writeCall = ci
 		}
 	}
